@@ -29,6 +29,7 @@ ENTITY_HARNESSES = [
     ent('pubdata', 'E_PUBDATA', 8, 10),
     ent('vbkmerkle', 'E_VBKMERKLE', 8, 12, covers=(2,)),
     ent('merkle', 'E_MERKLE', 8, 12, covers=(2,)),
+    ent('merkle_raw', 'E_MERKLE_RAW', 13, 16, covers=(1, 2), jobs=8),
 ]
 def prim(name, macro, covers, obl, rq, rt, jobs=4):
     return {'name': name, 'src': 'C11/h_serde.cpp', 'entry': 'h_serde', 'repo_srcs': srcsets.BASE + ['src/pop/entities/network_byte_pair.cpp'] if False else srcsets.SERDE, 'defines': [macro], 'covers': covers, 'jobs': jobs,
